@@ -562,7 +562,8 @@ func appendKey(b *bytes.Buffer, v px.Value) {
 	} else if pt, ok := v.(px.Type); ok {
 		b.WriteByte(1)
 		b.WriteByte(HkType)
-		b.Write([]byte(pt.Name()))
+		// The name is delimited, and so is each parameter (see appendTypeParamKey)
+		appendElementKey(b, stringValue(pt.Name()))
 		if ppt, ok := pt.(px.ParameterizedType); ok {
 			for _, p := range ppt.Parameters() {
 				appendTypeParamKey(b, p)
@@ -602,7 +603,7 @@ func appendTypeParamKey(b *bytes.Buffer, v px.Value) {
 			appendTypeParamKey(b, v)
 		})
 	} else {
-		appendKey(b, v)
+		appendElementKey(b, v)
 	}
 }
 
